@@ -27,6 +27,14 @@ Two sub-checks:
   generator steers towards these situations (blocker, cleanup, unblock,
   retry).
 
+  Twins: instance paths carry no host and the mock servers use the same
+  SystemName, so the same filter ID, destination ID or (filter, destination)
+  pair of one manager on two servers gives equal instance paths.  With two
+  servers the generator steers a manager to register both, to repeat on one
+  server the add_* calls of what it owns on the other one, and to remove a
+  twin explicitly on one server only; the owned lists are compared per
+  server, so the other server's list must keep its instance.
+
 * ``idpairs``: a fixed scenario (A creates, B with another ID registers,
   creates and deregisters, A restarts and rediscovers, A deregisters) run
   over many generated pairs of manager IDs; it covers the ID space much more
@@ -76,6 +84,11 @@ RULE = (
     "instances are referenced by somebody else's subscription runs a cleanup "
     "call (25%), after a blocked cleanup (60%) the blocking subscription is "
     "removed by its creator, the cleanup is retried or the client restarts.  "
+    "With two servers (42% of the steps of a manager that is not in a "
+    "blocked cleanup): register the other server too, repeat on a server "
+    "the add_destination/add_filter/add_subscriptions call of an instance "
+    "the manager owns on the other server (same IDs, URL, pair: equal "
+    "instance paths, 'twins'), remove a twin explicitly on one server only.  "
     "A cleanup call (remove_server, remove_all_servers, context manager "
     "exit) of a manager some of whose owned filters/destinations are "
     "referenced by a subscription it does not own must fail with "
@@ -94,7 +107,8 @@ RULE = (
     "history = has two managers with related IDs (prefix, case variant, or "
     "one matches the other as a regular expression) both of which created "
     "owned instances, or a client restart followed by a successful removal. "
-    "Classes cleanup:blocked-by-*, cleanup:retry-after-unblock, "
+    "Classes twin:created:*, twin:removed-on-one-server:*, history:twin-* "
+    "count the twin situations.  Classes cleanup:blocked-by-*, cleanup:retry-after-unblock, "
     "cleanup:retry-still-blocked, history:blocked-cleanup* count the "
     "histories/steps with a blocked cleanup.  "
     "Non-trivial idpairs case = the two IDs are related in that sense.  "
@@ -166,7 +180,8 @@ SENSITIVITY = [
     'remove_subscriptions() not updating the local list -> history/owned-list:rm_subs:sub:claims-unknown-instance',
     "filter marker built as 'pywbemfilter:<filter id>:<manager id>' -> history/add_filter:Name-is-not-the-documented-marker, idpairs/add_filter:Name-is-not-the-documented-marker",
     '(quick tier, seed 1, tree with /tmp/proposed_fixes/C18-1-failed-remove-server-drops-owned-lists.diff and without it) remove_server() dropping an owned list only after all its instances were deleted, instead of entry by entry (/tmp/seeded_out/C18/change2.diff) -> history/owned-list:failed-cleanup:filter:claims-instance-it-has-deleted, history/owned-list:failed-cleanup:dest:claims-instance-it-has-deleted (needs a blocked cleanup: 14% of the histories)',
-    '(unchanged tree) remove_server() that fails at a referenced filter/destination has already dropped the owned lists of the kinds it was done with, but the server stays registered: get_owned_subscriptions()/get_owned_filters(), add_subscriptions() ... raise KeyError -> history/remove_server:failed-cleanup-leaves-server-registered-without-owned-list; gone with /tmp/proposed_fixes/C18-1-failed-remove-server-drops-owned-lists.diff',
+    '(quick tier, seed 1) remove_destinations()/remove_filter()/remove_subscriptions() dropping the removed path from the owned lists of all registered servers (/tmp/seeded_out/C18/change4.diff) -> history/owned-list:rm_dests:dest:forgets-instance-with-same-path-as-one-removed-on-another-server, same for rm_filter:filter and rm_subs:sub (needs twins: 7% of the histories have a twin removed on one server)',
+    '(tree before 40ef205) remove_server() that fails at a referenced filter/destination has already dropped the owned lists of the kinds it was done with, but the server stays registered: get_owned_subscriptions()/get_owned_filters(), add_subscriptions() ... raise KeyError -> history/remove_server:failed-cleanup-leaves-server-registered-without-owned-list; gone with /tmp/proposed_fixes/C18-1-failed-remove-server-drops-owned-lists.diff',
     '(unchanged tree) manager ID not escaped in the discovery patterns -> history/discovery:manager-id-interpreted-as-regex, idpairs/discovery:manager-id-interpreted-as-regex; gone with /tmp/proposed_fixes/C18-manager-id-regex-escape.diff',
 ]
 
@@ -574,6 +589,7 @@ class World:
                               'limbo': {}})
         self.failed = False
         self.events = set()
+        self.just_removed = []      # (server, key) removed by this step
 
     # ---- helpers -------------------------------------------------------
 
@@ -1028,6 +1044,7 @@ class World:
             if self.twins(m, si, r):
                 cls.append('twin:removed-on-one-server:' + r.kind)
                 self.events.add('twin-removed')
+            self.just_removed.append((si, r.key))
             del self.recs[si][r.key]
             self.gone[si].append(r)
             cls.append('removed:%s:%s' % (r.kind, 'owned' if r.owner ==
@@ -1534,6 +1551,11 @@ class World:
                 'unknown-instance' if r is None else
                 'instance-of-other-manager' if r.owner[0] == 'mgr' else
                 r.owner[0] + '-instance')
+        elif missing and [1 for sj, k in self.just_removed
+                          if sj != si and k in missing]:
+            # instance paths carry no host
+            sig = ('owned-list:%s:%s:forgets-instance-with-same-path-as-'
+                   'one-removed-on-another-server' % (op, kind))
         elif missing:
             sig = 'owned-list:%s:%s:lacks-own-instance' % (op, kind)
         elif dup:
@@ -1631,7 +1653,7 @@ class Machine:
                               if i not in reg][0]}
             return None
         cands = []
-        if steer < 50:
+        if steer < 55:
             # an owned instance of another server that is missing here
             for si in reg:
                 uf = w.usable(m, si, 'filter')
@@ -1715,7 +1737,7 @@ class Machine:
                         step[key] = w.mgr_owned(si, k).index(
                             mine[draw(_I100) % len(mine)])
                 return step
-        if reg and not blk and ns > 1 and 30 <= steer < 65:
+        if reg and not blk and ns > 1 and 30 <= steer < 72:
             # twins: instance paths carry no host, so the same filter ID /
             # destination ID / (filter, destination) pair on two servers
             # gives equal paths.  Register the other server too, repeat
@@ -1817,6 +1839,7 @@ class Machine:
         op = step['op']
         mi, si = step['m'], step['s']
         m = w.mgrs[mi]
+        w.just_removed = []
         if si in m['limbo'] and op in LIMBO_SKIPS:
             # the manager has lost an owned list of this server
             # (SIG_DROPPED_LIST, reported): the model cannot follow what
